@@ -368,6 +368,22 @@ func buildOpsModel(c *Ctx) *opsModel {
 		}
 		var cands, popSigs []*ast.FuncDecl
 		discards := map[*types.Func]bool{}
+		// the methods whose single write to the operand stack removes its top element: found by the VM
+		// group's stack discovery (shape of the write, whatever its spelling: bound in a local, full slice
+		// expression, parallel assignment); the stack field itself is resolved by type
+		shrinkers := map[*types.Func]bool{}
+		if cst, ok := m.vmRecv.Type().Underlying().(*types.Struct); ok {
+			vfns := vmFuncs(c, vmRel)
+			for i := 0; i < cst.NumFields(); i++ {
+				if isStackField(cst.Field(i)) {
+					for fn, k := range vmDiscoverStack(vfns, cst.Field(i)).pop {
+						if k == 1 {
+							shrinkers[fn] = true
+						}
+					}
+				}
+			}
+		}
 		for _, fd := range AllFuncDecls(p) {
 			fn, _ := p.TypesInfo.Defs[fd.Name].(*types.Func)
 			if fn == nil || fd.Body == nil {
@@ -388,33 +404,7 @@ func buildOpsModel(c *Ctx) *opsModel {
 			isPopSig := sig.Params().Len() == 0 && sig.Results().Len() == 1 && valueIf != nil && opsTypeName(sig.Results().At(0).Type()) == valueIf
 			isDiscardSig := sig.Params().Len() == 0 && sig.Results().Len() == 0
 			if isPopSig || isDiscardSig {
-				shrinks := false
-				ast.Inspect(fd.Body, func(n ast.Node) bool {
-					as, ok := n.(*ast.AssignStmt)
-					if !ok || len(as.Lhs) != 1 || len(as.Rhs) != 1 {
-						return true
-					}
-					lsel, ok := ast.Unparen(as.Lhs[0]).(*ast.SelectorExpr)
-					if !ok {
-						return true
-					}
-					ls := p.TypesInfo.Selections[lsel]
-					if ls == nil || ls.Kind() != types.FieldVal {
-						return true
-					}
-					f, _ := ls.Obj().(*types.Var)
-					if f == nil || !isStackField(f) {
-						return true
-					}
-					if sx, ok := ast.Unparen(as.Rhs[0]).(*ast.SliceExpr); ok {
-						if rsel, ok := ast.Unparen(sx.X).(*ast.SelectorExpr); ok {
-							if rs := p.TypesInfo.Selections[rsel]; rs != nil && rs.Obj() == f {
-								shrinks = true
-							}
-						}
-					}
-					return true
-				})
+				shrinks := shrinkers[fn]
 				if shrinks {
 					if isPopSig {
 						m.pops[fn] = true
